@@ -85,6 +85,10 @@ def run(sc, speculative):
         cfg["nonlinear_constraints"] = {"lower_bounds": [-INF], "upper_bounds": [100.0]}
     if haslin:
         cfg["linear_constraints"] = {"coefficients": [[1.0, 1.0]], "lower_bounds": [-INF], "upper_bounds": [50.0]}
+    import zlib
+    pfail = cls == "grad" and zlib.crc32(str(sc["hist"]).encode()) % 2 == 1      # failures confined to perturbed evaluations
+    if pfail:
+        cfg["realizations"]["realization_min_success"] = 1
     evals = []
 
     def evaluator(variables, context):
@@ -98,8 +102,12 @@ def run(sc, speculative):
             base = variables[(perts < 0) & sel] if hasf else variables
             pts = [pool_index(base.mean(axis=0))] if not hasf else [pool_index(v) for v in base]
         evals.append({"pts": pts, "f": hasf, "g": hasg})
-        return EvaluatorResult(objectives=(_raw(variables) + 1000.0 * context.realizations)[:, None],
-                               constraints=fcon(variables)[:, None] if hasnl else None)
+        objectives = (_raw(variables) + 1000.0 * context.realizations)[:, None]
+        if pfail and perts is not None:
+            # every perturbed evaluation of the second realization fails: the gradient then rests on the first realization
+            # alone (the same gradient), the function values of that point are not concerned
+            objectives[(perts >= 0) & (context.realizations == 1)] = np.nan
+        return EvaluatorResult(objectives=objectives, constraints=fcon(variables)[:, None] if hasnl else None)
 
     events = []
     sig = []
